@@ -83,7 +83,27 @@ def run(ctx, model_ok):
                             "TriangularMesh vertices / faces have no setter (_input_check, foreign IndexError for bad face indices: observed)",
                             "start / degrees / anchor / angle / axis / orientation / field / output are modelled as the validator functions; that move, rotate*, getB call them on the argument before "
                             "touching any path is the subject of C09 (path stream incl. rejected calls); for getBH_level2 the order of the checks is regenerated (level2_checks_precede_fields): "
-                            "`output` is checked AFTER the field computation, pixel_agg after check_dimensions / check_excitations"]
+                            "`output` is checked AFTER the field computation, pixel_agg after check_dimensions / check_excitations",
+                            "audit2 — the setter-form analysis (SetterForm, Model/CallArgs.lean) is a SYNTACTIC check of a regenerated statement skeleton; no execution semantics of the skeleton "
+                            "exists in the framework, so 'form = true => a rejected call leaves the state unchanged' is the reading of the checker, not a theorem "
+                            "(rwc_no_unrestored_change_before_rejection restates the checker on event lists; its clause for restoring handlers is existential in the saved references). Trusted "
+                            "besides the call classification: that only CALLS can reject (an index / arithmetic error of a plain expression after a write is not an event), that loops taken 0 / 1 / 2 "
+                            "times stand for all counts, that self._validate_style (MagicProperties.update, all-or-nothing by its own try / restore) and add / remove change nothing when they "
+                            "reject. SetterForm.form drops an exception handler it does not recognise (narrower except, a branch, `raise X`) WITHOUT looking at its writes, and does not ask whether a "
+                            "recognised handler writes more than it restores (witness form_ignores_unrestoring_handlers: four state-changing mutants pass `form`); for the regenerated table this is "
+                            "closed by setters_reject_without_change_strict (every handler is recognised and writes only undos of the setter's own writes) — the driver command `setterform` still "
+                            "evaluates the un-strict `form` (proposed: move handlersOnlyRestoreL into Model/CallArgs.lean and let `form` include it)",
+                            "audit2 — 'no accepted object later fails inside a field computation with an internal error' is decided only for (1) missing dimension / excitation / field_func "
+                            "(missing_attribute_rejected_before_fields, complete_objects_pass: the field computation itself is the opaque parameter `run` — that it does not fail is NOT stated) and "
+                            "(2) pixel_agg (documented names reduce; 11 accepted names fail later: pixel_agg_ndim_fails_later). That an accepted dimension / vertices / polarization value meets the "
+                            "shape preconditions of its kernel (DESIGN's `accepted_is_computable`) has no theorem: oracle only (assignment, then getB)",
+                            "audit2 — by definition / weaker than their names: pixel_agg_documented_never_fails_later and the `documented => accepted` half of pixel_agg_accepts_iff_documented_partial "
+                            "(docPixelAgg is defined as 'returns a number and reduces both ways' over the probed table; the content is the table, the two pinned lists and the stream); "
+                            "style_setter_accepts_iff_documented (whether a dictionary's entries are valid is an input bit `defect` of the model, not modelled: C20); docChildren counts a bare object and a "
+                            "list wrapped in one more list as documented because `add` unwraps them (spec written after repo fix 045b334); inout_is_validated_nowhere pins a detector that sees "
+                            "positional arguments only while the source passes in_out by keyword (the `inout` stream rows carry that claim); the constructor table theorems were vacuous for an empty "
+                            "table and blind to a second row of a parameter (closed: ctor_table_is_total_and_single_valued); `reach their setters` means, for position / orientation / style / the "
+                            "TriangularMesh arguments / override_parent, 'is passed to the named call' (what that call does with it: C09, C20, not here)"]
 
 def replay(ctx, payload):
     import json
